@@ -603,6 +603,28 @@ func nodeLoop(c *Check) {
 		k := armOf(ci)
 		ok := k >= 0 && k < len(sel.States) && sel.States[k].Dir == types.RecvOnly
 		if ok {
+			// the channel is the node's advance channel (possibly through the local nil-able copy)
+			ok = false
+			seen := map[ssa.Value]bool{}
+			var look func(v ssa.Value, d int)
+			look = func(v ssa.Value, d int) {
+				if v == nil || d > 4 || seen[v] {
+					return
+				}
+				seen[v] = true
+				if ph, isPhi := v.(*ssa.Phi); isPhi {
+					for _, e := range ph.Edges {
+						look(e, d+1)
+					}
+					return
+				}
+				if s := fi.Sym(v); s.K == KField && s.Fld.Name() == "advancec" {
+					ok = true
+				}
+			}
+			look(sel.States[k].Chan, 0)
+		}
+		if ok {
 			advPhi = sel.States[k].Chan
 		}
 		c.Result(ok, "C05.N", "Node advances only on the application's acknowledgement", fnName(run), p.site(ci), "rn.Advance is called only in the select arm that received from the advance channel", fmt.Sprintf("arm %d", k))
